@@ -125,6 +125,18 @@ fn write_corpus(ctx: &Ctx) -> Result<u64, String> {
     set.extend(length_ladder(if ctx.quick() { 120 } else { 300 }, true));
     set.extend(utf8_strings(if ctx.quick() { 3 } else { 4 }));
     set.extend(history_menu());
+    // count ladder: every list position at every n (ascending and descending order)
+    {
+        use super::counts::{input_text, Spec, DIMS};
+        let n_max = if ctx.quick() { 40 } else { 72 };
+        for dim in DIMS {
+            for n in 0..=n_max {
+                for kind in [0u8, 1] {
+                    set.insert(input_text(dim, &Spec { n, kind, a: 0, b: 0 }).into_bytes());
+                }
+            }
+        }
+    }
     if let Ok(txt) = std::fs::read_to_string(dir_ids_path()) {
         for l in txt.lines() {
             set.insert(l.as_bytes().to_vec());
